@@ -35,6 +35,13 @@ def enc(v, depth=0):
     return "<%s>" % type(v).__name__
 
 
+STEP_LIMIT = 200000
+
+
+class Huge(BaseException):
+    """the program runs longer than any program the check wants to compare (e.g. a string grown inside a loop over itself)"""
+
+
 def run(src):
     tr = []
     env = {"emit": lambda x: tr.append(enc(x)), "__builtins__": dict(__builtins__.__dict__)}
@@ -47,6 +54,8 @@ def run(src):
     def tracer(frame, event, arg):
         if event == "line":
             steps[0] += 1
+            if steps[0] > STEP_LIMIT:
+                raise Huge()
         return tracer
 
     tracemalloc.start()
@@ -60,6 +69,9 @@ def run(src):
         peak = tracemalloc.get_traced_memory()[1]
         tracemalloc.stop()
         return {"tr": tr, "out": {"ok": True}, "steps": steps[0], "peak": peak}
+    except Huge:
+        tracemalloc.stop()
+        return {"tr": [], "out": {"huge": True}, "huge": True, "steps": steps[0], "peak": 10 ** 12}
     except RecursionError:
         tracemalloc.stop()
         return {"tr": tr, "out": {"err": {"cls": "RecursionError", "line": 0}}}
